@@ -2,6 +2,9 @@ use crate::engine::{Run, Tier};
 use std::path::Path;
 
 pub mod c01;
+pub mod c03;
+pub mod c04;
+pub mod c06;
 
 pub fn replay(id: &str, file: &str) -> i32 {
     let mut run = Run::new(id, Tier::Quick, "exploration");
@@ -9,6 +12,10 @@ pub fn replay(id: &str, file: &str) -> i32 {
     let r = match id {
         "C01" => c01::replay(&mut run, f),
         "C02" => c01::replay_c02(&mut run, f),
+        "C03" => c03::replay(&mut run, f),
+        "C04" => c04::replay_c04(&mut run, f),
+        "C05" => c04::replay_c05(&mut run, f),
+        "C06" => c06::replay(&mut run, f),
         _ => None,
     };
     match r {
